@@ -1,0 +1,18 @@
+//go:build verif
+
+// Contracts for package accesscontroller/ipfs, read by /verif/govc. Comments only.
+package ipfs
+
+// CanAppend returns nil only for an entry whose identity id is in the write list, or when the list holds
+// the wildcard, and only if the identity provider accepted the identity.
+//@ func (*ipfsAccessController).CanAppend
+//@   props C03 C12
+//@   flag nilcalls
+//@   requires entry != nil && ref(entry) != 0 && ptr(entry, "entry.Entry").Identity != nil
+//@   requires p != nil
+//@   ghost id := ptr(entry, "entry.Entry").Identity.ID
+//@   loop 1 invariant forall j Int :: 0 <= j && j < $i ==> i.writeAccess[j] != id && i.writeAccess[j] != "*"
+//@   ensures result == nil ==> (exists j Int :: 0 <= j && j < len(i.writeAccess) && (i.writeAccess[j] == id || i.writeAccess[j] == "*"))
+//@   ensures result == nil ==> verifyOK(p, ptr(entry, "entry.Entry").Identity)
+//@   ensures (forall j Int :: 0 <= j && j < len(i.writeAccess) ==> i.writeAccess[j] != id && i.writeAccess[j] != "*") ==> result != nil
+//@   modifies nothing
